@@ -106,3 +106,37 @@ fn c18_fileview_ops() {
     kani::cover!(c2, "cursor at window end");
     core::mem::forget(view);
 }
+
+// @harness c18_fileview_ops3
+// @props C18
+// @tier thorough
+// @kind stretch
+// @timeout 3000
+// @mem 24
+// @flags c-ffi
+// @functions as c18_fileview_ops
+// @bounds as c18_fileview_ops with 3 operations
+// @stubs as c18_fileview_ops
+// @assumes as c18_fileview_ops
+#[kani::proof]
+#[kani::unwind(6)]
+fn c18_fileview_ops3() {
+    let flen: i64 = kani::any();
+    kani::assume(flen >= 0 && flen <= 12);
+    let (a, b): (u64, u64) = (kani::any(), kani::any());
+    kani::assume(a <= b && b <= 14 && a <= flen as u64);
+    let file = vfile::make(flen);
+    let r = FileView::new(file, a, b);
+    let Ok(mut view) = r else {
+        assert!(false, "[new] FileView::new failed");
+        return;
+    };
+    let bb = if b < flen as u64 { b } else { flen as u64 };
+    let mut iso = Iso { len: bb - a, pos: 0 };
+    one_op(&mut view, &mut iso, a);
+    one_op(&mut view, &mut iso, a);
+    one_op(&mut view, &mut iso, a);
+    let c1 = a > 0;
+    kani::cover!(c1, "window not starting at 0");
+    core::mem::forget(view);
+}
